@@ -37,6 +37,7 @@ struct Args {
     int shard = 0, nshards = 1;
     double deadline_s = 0;    // relative seconds from start
     std::string only;         // substring filter on scenario names
+    std::string skip;         // scenarios whose name contains this are left out
     std::string replay_scenario;
     std::string schedule;
     bool list = false;
@@ -66,6 +67,7 @@ inline Args parse(int argc, char** argv) {
             sscanf(v.c_str(), "%d/%d", &a.subshard, &a.nsubshards);
         } else if (s == "--deadline") a.deadline_s = atof(next().c_str());
         else if (s == "--only") a.only = next();
+        else if (s == "--skip") a.skip = next();
         else if (s == "--replay") a.replay_scenario = next();
         else if (s == "--schedule") a.schedule = next();
         else if (s == "--list") a.list = true;
@@ -152,6 +154,7 @@ inline int run_main(const char* harness, const std::vector<Scenario>& all, const
     bool any_violation = false;
     for (auto& sc : all) {
         if (!a.only.empty() && sc.name.find(a.only) == std::string::npos) continue;
+        if (!a.skip.empty() && sc.name.find(a.skip) != std::string::npos) continue;
         if (a.tier == "quick" && !sc.quick) continue;
         int my = idx++;
         if (my % a.nshards != a.shard) continue;
